@@ -1060,3 +1060,99 @@ func InetString(r *hlib.Rng) string {
 	}
 	return v4()
 }
+
+// ---- deterministic systematic cases shared by BOTH harnesses (no PRNG: the same in every run and seed) ----
+
+type SharedCase struct {
+	Kind string
+	T    *Ty
+	V    *Val
+	Gs   []*GTy
+}
+
+// VintBoundaries: every length boundary of the vint encoding (2^(7k)-1, 2^(7k), k = 1..9, both signs), the
+// ends of int64 and the values whose zig-zag form needs 63 / 64 bits
+func VintBoundaries() []int64 {
+	seen := map[int64]bool{}
+	var out []int64
+	add := func(v int64) {
+		if !seen[v] {
+			seen[v] = true
+			out = append(out, v)
+		}
+	}
+	for _, v := range []int64{0, 1, -1, 63, 64, -64, -65} {
+		add(v)
+	}
+	for k := uint(1); k <= 9; k++ {
+		if 7*k < 63 {
+			p := int64(1) << (7 * k)
+			add(p - 1)
+			add(p)
+			add(-p)
+			add(-p + 1)
+			add(-p - 1)
+			add(p/2 - 1) // zig-zag boundary: 2v reaches 2^(7k)
+			add(p / 2)
+			add(-p / 2)
+			add(-p/2 - 1)
+		}
+	}
+	for _, v := range []int64{1 << 62, 1<<62 - 1, -(1 << 62), -(1 << 62) + 1, -(1 << 62) - 1, 1<<63 - 1, 1<<63 - 2, -1 << 63, -1<<63 + 1} {
+		add(v)
+	}
+	return out
+}
+
+// IntStrings: string sources for integer-like columns: canonical, zero-padded, signed, blanks, other bases,
+// exponents, empty, very long.  The documented meaning is the base-10 number (or an error).
+func IntStrings() []string {
+	return []string{"0", "7", "-7", "100", "-100", "127", "128", "-128", "-129", "255", "32767", "32768", "-32768", "2147483647", "2147483648",
+		"-2147483648", "9223372036854775807", "9223372036854775808", "-9223372036854775808", "-9223372036854775809",
+		"0100", "-0100", "0010", "0128", "007", "00", "-00", "0000000000000000000000000000000000000001", "+5", "+0100", "-0", "+0",
+		" 1", "1 ", "\t1", "1\n", "0x10", "0X10", "0b11", "0o17", "1e3", "1E3", "1.0", "1_000", "", "+", "-", "--1", "0x", "١٢",
+		"99999999999999999999999999999999", "-99999999999999999999999999999999"}
+}
+
+func SharedSystematic() []SharedCase {
+	var cs []SharedCase
+	// (1) strings into every integer-like column
+	for _, id := range IntIDs {
+		t := Native(gocqlType(id))
+		for _, s := range IntStrings() {
+			cs = append(cs, SharedCase{"sys-int-string", t, VStr(false, s), []*GTy{TK("big"), TInt(I64, false), TK("str")}})
+		}
+	}
+	// (2) duration at every vint length boundary, from every documented source type
+	dt := Native(gocql.TypeDuration)
+	dg := []*GTy{TK("cqldur"), TPtr(TK("cqldur"))}
+	clip := func(v int64) int32 {
+		if v > 2147483647 {
+			return 2147483647
+		}
+		if v < -2147483648 {
+			return -2147483648
+		}
+		return int32(v)
+	}
+	vb := VintBoundaries()
+	for i, n := range vb {
+		cs = append(cs, SharedCase{"sys-duration", dt, VCqlDur(0, 0, n), dg})
+		cs = append(cs, SharedCase{"sys-duration", dt, VDur(n), dg})
+		cs = append(cs, SharedCase{"sys-duration", dt, VInt64(I64, false, n), dg})
+		cs = append(cs, SharedCase{"sys-duration", dt, VInt64(I64, true, n), dg})
+		m, d := clip(vb[(i*3+1)%len(vb)]), clip(vb[(i*5+2)%len(vb)])
+		cs = append(cs, SharedCase{"sys-duration", dt, VCqlDur(m, d, n), dg})
+		cs = append(cs, SharedCase{"sys-duration", dt, VCqlDur(clip(n), clip(-n), 0), dg})
+	}
+	// the same boundaries as time (nanoseconds) and bigint / varint values (8-byte and minimal encodings)
+	for _, n := range vb {
+		cs = append(cs, SharedCase{"sys-int64-boundary", Native(gocql.TypeBigInt), VInt64(I64, false, n), []*GTy{TInt(I64, false), TK("big")}})
+		cs = append(cs, SharedCase{"sys-int64-boundary", Native(gocql.TypeVarint), VInt64(I64, true, n), []*GTy{TInt(I64, false), TK("big")}})
+	}
+	// varint byte-length boundaries from big.Int (both harnesses)
+	for _, z := range VarintBoundaries() {
+		cs = append(cs, SharedCase{"sys-varint-boundary", Native(gocql.TypeVarint), VBig(z), []*GTy{TK("big"), TInt(I64, false), TInt(U64, false)}})
+	}
+	return cs
+}
